@@ -84,9 +84,11 @@ fn gen_scenario(r: &mut Rng) -> Scenario {
     let mut at = initial; // next prev for a consecutive request
     let mut commit = r.below(initial + 1);
     for _ in 0..k {
-        let style = r.below(10);
+        let style = r.below(12);
         let (prev, cnt) = match style {
             0 => (at, 0),                                                   // heartbeat
+            10 => (at + r.range(1, 3), 0),                                  // heartbeat anchored past the queue
+            11 if at > 0 => (r.below(at), 0),                               // heartbeat anchored before it
             1 if at > 0 => (r.below(at), r.range(1, 3)),                    // overlapping re-send
             2 => (at + r.range(1, 2), r.range(1, 2)),                       // gapped
             _ => (at, r.range(1, 4)),                                       // consecutive
@@ -106,8 +108,10 @@ fn gen_scenario(r: &mut Rng) -> Scenario {
         if r.chance(1, 2) {
             commit = (commit + r.below(3)).min(end.max(commit));
         }
-        queue.push(Req { term, prev, n: cnt, commit });
-        if style != 1 && style != 2 {
+        // a heartbeat's leader_commit is the leader's commit index, whatever its anchor
+        let commit_sent = if cnt == 0 && r.chance(1, 2) { (commit + r.below(5)).min(n) } else { commit };
+        queue.push(Req { term, prev, n: cnt, commit: commit_sent });
+        if style != 1 && style != 2 && style != 10 && style != 11 {
             at = end;
         }
     }
@@ -262,8 +266,45 @@ pub fn run_c36(seed: u64, runs: u64, scratch: &Path, rep: &mut ShardReport, budg
             rep.violation("C36", "merged-queue-leaves-a-different-log", detail(json!({})), scenario.clone());
             continue;
         }
+        // merge groups as the real loop forms them when the whole queue is waiting: maximal runs
+        // of contiguous same-term requests, cut at max_merge_entries
+        let groups: Vec<(usize, usize)> = {
+            let mut g = Vec::new();
+            let mut i = 0;
+            while i < sc.queue.len() {
+                let mut next_prev = sc.queue[i].prev + sc.queue[i].n;
+                let mut total = sc.queue[i].n as usize;
+                let mut j = i + 1;
+                while j < sc.queue.len() && sc.queue[j].prev == next_prev && sc.queue[j].term == sc.queue[i].term && total + sc.queue[j].n as usize <= sc.max_merge {
+                    next_prev += sc.queue[j].n;
+                    total += sc.queue[j].n as usize;
+                    j += 1;
+                }
+                g.push((i, j));
+                i = j;
+            }
+            g
+        };
         if a.commit != b.commit {
-            rep.violation("C36", "merged-queue-leaves-a-different-commit-index", detail(json!({"burst_commit": a.commit, "sequential_commit": b.commit})), scenario.clone());
+            // mechanism recorded as a known finding: the merged request carries the maximum
+            // leader_commit of its group, so a commit index that one request could only vouch for
+            // up to its own end is applied to the entries a later request of the group brought
+            let max_commit_carried_past_its_request = a.commit > b.commit
+                && groups.iter().any(|(i, j)| {
+                    let end = sc.queue[*i].prev + sc.queue[*i..*j].iter().map(|q| q.n).sum::<u64>();
+                    let mut own_end = sc.queue[*i].prev;
+                    j - i >= 2
+                        && sc.queue[*i..*j].iter().any(|q| {
+                            own_end += q.n;
+                            q.commit > own_end && end > own_end
+                        })
+                });
+            let sig = if max_commit_carried_past_its_request {
+                "merged-queue-leaves-a-different-commit-index:max-leader-commit-of-a-merge-group-applied-to-entries-of-a-later-request"
+            } else {
+                "merged-queue-leaves-a-different-commit-index"
+            };
+            rep.violation("C36", sig, detail(json!({"burst_commit": a.commit, "sequential_commit": b.commit})), scenario.clone());
             continue;
         }
         // acknowledgements
@@ -289,7 +330,18 @@ pub fn run_c36(seed: u64, runs: u64, scratch: &Path, rep: &mut ShardReport, budg
                 _ => false,
             };
             if !ok {
-                rep.violation("C36", "merged-sender-gets-a-different-acknowledgement", detail(json!({"request_no": i, "burst_ack": format!("{x:?}"), "sequential_ack": format!("{y:?}"), "follower_matches_leader_upto": truthful_upto})), scenario.clone());
+                // mechanism recorded as a known finding: alone, a heartbeat anchored inside the
+                // follower's log is answered with the follower's last index; merged into a group
+                // it gets the group's end
+                let hb_inside = matches!((x, y), (Ack::Success { term: t1, matched: m1 }, Ack::Success { term: t2, matched: m2 })
+                    if t1 == t2 && sc.queue[i].n == 0 && *m2 > sc.queue[i].prev && *m1 < *m2 && *m1 >= sc.queue[i].prev)
+                    && groups.iter().any(|(gi, gj)| *gi <= i && i < *gj && gj - gi >= 2);
+                let sig = if hb_inside {
+                    "merged-sender-gets-a-different-acknowledgement:heartbeat-anchored-inside-the-log-answered-with-the-group-end-instead-of-the-last-index"
+                } else {
+                    "merged-sender-gets-a-different-acknowledgement"
+                };
+                rep.violation("C36", sig, detail(json!({"request_no": i, "burst_ack": format!("{x:?}"), "sequential_ack": format!("{y:?}"), "follower_matches_leader_upto": truthful_upto})), scenario.clone());
                 break;
             }
         }
